@@ -294,14 +294,14 @@ def core_mod():
 ''' % {'f': fb}, fns={
             'gen_ks_block': FnC(props=PB, inherits=True, ensures=[
                 ('out', PB, 'final(block)@ == old(self).backend.enc_fn()(ctr_layout(%(f)s::base(&*old(self).ctr_nonce), %(f)s::pos(&*old(self).ctr_nonce), %(f)s::wbytes(), %(f)s::big_endian()))' % {'f': fb}),
-                ('advance', PB + ('C10', 'C11'), '%(f)s::pos(&*final(self).ctr_nonce) == (%(f)s::pos(&*old(self).ctr_nonce) + 1) %% pow256(%(f)s::wbytes())' % {'f': fb}),
+                ('advance', PB + ('C09', 'C10', 'C11'), '%(f)s::pos(&*final(self).ctr_nonce) == (%(f)s::pos(&*old(self).ctr_nonce) + 1) %% pow256(%(f)s::wbytes())' % {'f': fb}),
                 ('base_kept', PB + ('C10',), '%(f)s::base(&*final(self).ctr_nonce) == %(f)s::base(&*old(self).ctr_nonce)' % {'f': fb}),
             ] + frame, stmts={'0': 'proof { <B::BlockSize as BlockSizes>::block_size_bounds(); }'}),
             'gen_par_ks_blocks': FnC(props=PB, inherits=True, attrs=['#[verifier::loop_isolation(false)]'], ensures=[
                 ('out', PB, '''forall |j: int| 0 <= j < B::ParBlocksSize::USIZE ==>
                 (#[trigger] final(blocks)@[j])@ == old(self).backend.enc_fn()(ctr_layout(%(f)s::base(&*old(self).ctr_nonce),
                     (%(f)s::pos(&*old(self).ctr_nonce) + j) %% pow256(%(f)s::wbytes()), %(f)s::wbytes(), %(f)s::big_endian()))''' % {'f': fb}),
-                ('advance', PB + ('C10', 'C11'), '%(f)s::pos(&*final(self).ctr_nonce) == (%(f)s::pos(&*old(self).ctr_nonce) + B::ParBlocksSize::USIZE) %% pow256(%(f)s::wbytes())' % {'f': fb}),
+                ('advance', PB + ('C09', 'C10', 'C11'), '%(f)s::pos(&*final(self).ctr_nonce) == (%(f)s::pos(&*old(self).ctr_nonce) + B::ParBlocksSize::USIZE) %% pow256(%(f)s::wbytes())' % {'f': fb}),
                 ('base_kept', PB + ('C10',), '%(f)s::base(&*final(self).ctr_nonce) == %(f)s::base(&*old(self).ctr_nonce)' % {'f': fb}),
             ] + frame, iters={0: 'it'}, stmts={'0': '''
         broadcast use Array::axiom_len;
